@@ -427,6 +427,8 @@ pub struct Inst {
     pub dead: Option<String>,
     pub fuel_exhausted: bool,
     pub async_pending: bool,
+    /// interpreter steps executed by the last `apply`
+    pub last_steps: u64,
 }
 
 pub const N_OBSERVERS: usize = 3;
@@ -465,6 +467,7 @@ impl Inst {
             dead: None,
             fuel_exhausted: false,
             async_pending: false,
+            last_steps: 0,
         };
         if setup.allow_fallbacks {
             inst.apply(&Op::AllowFallbacks(true));
@@ -512,6 +515,14 @@ impl Inst {
         }
         ev
     }
+    /// raw (unsorted) callback log, in delivery order
+    pub fn events_raw(&self) -> Vec<String> {
+        self.log.events.borrow().clone()
+    }
+    /// the (observer, variable) registrations the host believes it has (its own bookkeeping)
+    pub fn regs(&self) -> Vec<(usize, String)> {
+        self.observer_regs.clone()
+    }
     pub fn events_len(&self) -> usize {
         self.log.events.borrow().len()
     }
@@ -531,7 +542,9 @@ impl Inst {
         if let Some(d) = &self.dead {
             return format!("dead:{d}");
         }
+        let steps0 = verif::step_count();
         let r = guarded(|| self.apply_inner(op));
+        self.last_steps = verif::step_count().wrapping_sub(steps0);
         if verif::fuel_left() == Some(0) {
             self.fuel_exhausted = true;
         }
